@@ -151,6 +151,9 @@ func init() {
 	reg(&CheckDef{
 		ID:   "C01",
 		Meta: "fit.Hmeta",
+		Outside: []string{"byte strings outside H01a's single-field definitions and the stream model (fully symbolic streams of more than a few bytes explode: > 10^4 paths at 12 data bytes, almost all early rejections)",
+			"'no hang' is covered as 'every loop terminated within the unwinding bound (4200 iterations per loop head) on every explored path'; readers that violate the io.Reader contract (0 bytes without error, forever) are outside the claim",
+			"definition records with more than the model's field counts (e.g. 255 fields / 255 developer fields filling the 765-byte scratch buffer) are not explored"},
 		Jobs: func(tier string, meta map[string]int) []Job {
 			allstr := 0
 			if tier == "thorough" {
@@ -158,11 +161,25 @@ func init() {
 			}
 			js := msgJobs(meta, "fit", "H01a", "allstr", allstr)
 			js = append(js, job("fit", "H01a", "gmn", 0xFFF0, "allstr", allstr)) // a message number the profile does not know
+			// whole runs of every entry point on the stream model, whole and cut
+			n := 2
+			if tier == "thorough" {
+				n = 3
+			}
+			for _, k := range kindSeqs(n) {
+				js = append(js, job("fit", "H01s", "n", n, "kinds", k, "crc", k%2, "chunk", []int{0, 1, 3}[k%3], "cut", 0))
+				if tier == "thorough" || k%2 == 0 {
+					js = append(js, job("fit", "H01s", "n", n, "kinds", k, "crc", (k+1)%2, "chunk", []int{0, 1, 3}[(k+1)%3], "cut", 1))
+				}
+			}
+			// the record dispatcher from an arbitrary reference-timestamp state (shared with C13)
+			js = append(js, job("fit", "H13", "defkind", 0), job("fit", "H13b"))
 			return js
 		},
-		MustReach: []string{"decoded", "rejected", "C01.field.consumed-size"},
+		MustReach: []string{"decoded", "rejected", "C01.field.consumed-size", "entry-points-returned"},
 		Bounds: map[string]interface{}{
-			"quick": "H01a: every single-field definition, exhaustively: each of the profile's message numbers (from the tree) plus one unknown number x all 256 field numbers x all 256 base-type bytes x all sizes 0-255 x both byte orders x all data bytes",
+			"quick": "H01a: every single-field definition, exhaustively: each of the profile's message numbers (from the tree) plus one unknown number x all 256 field numbers x all 256 base-type bytes x all sizes 0-255 x both byte orders x all data bytes (string sizes restricted to {0..8,16,127,128,254,255}; string arrays: sizes 0..6 fully symbolic, larger with one terminator); H01s: all five entry points (Decode also with all options) on every stream of the model with n = 2 records, whole and (half of the sequences) cut at every offset, chunk sizes 1, 3, unlimited; H13/H13b: one record through the dispatcher from an arbitrary reference timestamp",
+			"thorough": "H01a with every string size and two terminators in long string arrays; H01s with n = 3 and every sequence cut",
 		},
 		Assumptions: commonAssumptions,
 	})
@@ -300,11 +317,11 @@ func init() {
 	reg(&CheckDef{
 		ID: "C13",
 		Jobs: func(tier string, meta map[string]int) []Job {
-			return []Job{job("fit", "H13", "defkind", 0), job("fit", "H13", "defkind", 1), job("fit", "H13", "defkind", 2)}
+			return []Job{job("fit", "H13", "defkind", 0), job("fit", "H13", "defkind", 1), job("fit", "H13", "defkind", 2), job("fit", "H13b")}
 		},
-		MustReach: []string{"C13.def.replaces-its-slot", "C13.def.other-slots-untouched", "C13.data.undefined-slot-is-error", "C13.data.consumed-by-selected-slot", "C13.data.routed-by-selected-slot", "C13.data.definitions-never-written"},
+		MustReach: []string{"C13.def.replaces-its-slot", "C13.def.other-slots-untouched", "C13.data.undefined-slot-is-error", "C13.data.consumed-by-selected-slot", "C13.data.routed-by-selected-slot", "C13.data.definitions-never-written", "C13.dev.records-read-with-their-own-definition", "C13.dev.first-slot-descriptors-kept"},
 		Bounds: map[string]interface{}{
-			"quick":    "one record (all 256 header bytes, arbitrary record bytes) through the real decodeFileData loop from a state where all 16 slots hold pairwise distinguishable definitions (different message, record length 2..17, alternating byte order) except at most one nil slot (17 choices); definition records carry one of three bodies (with/without one developer field): a different message, the slot's own layout with the opposite byte order, or the slot's definition verbatim",
+			"quick":    "one record (all 256 header bytes, arbitrary record bytes) through the real decodeFileData loop from a state where all 16 slots hold pairwise distinguishable definitions (different message, record length 2..17, alternating byte order) except at most one nil slot (17 choices); definition records carry one of three bodies (with/without one developer field): a different message, the slot's own layout with the opposite byte order, or the slot's definition verbatim; plus (H13b) two developer-field definitions for two local types (every slot and its two neighbours by bit flip, developer field sizes 1-4, both orders) followed by records of both",
 			"thorough": "same",
 		},
 		Outside: []string{"arbitrary interleavings follow by induction on the one-record step (slot contents only change by replacement; other slots pointer-identical) — paper argument",
@@ -340,14 +357,24 @@ func init() {
 			if tier == "thorough" {
 				allstr = 1
 			}
-			return msgJobs(meta, "fit", "H02a", "allstr", allstr)
+			js := msgJobs(meta, "fit", "H02a", "allstr", allstr)
+			maxb := 3
+			if tier == "thorough" {
+				maxb = 0
+			}
+			for menu := 0; menu <= 4; menu++ {
+				for first := 0; first <= 1; first++ {
+					js = append(js, msgJobs(meta, "fit", "H02b", "maxb", maxb, "menu", menu, "first", first)...)
+				}
+			}
+			return js
 		},
-		MustReach: []string{"C02.compatible-definition-accepted", "C02.compatible-record-decodes", "C02.value.scalar", "C02.value.time", "C02.value.localtime", "C02.value.lat", "C02.value.lng", "C02.value.string", "C02.value.string-array", "C02.value.array-element", "C02.absent-fields-invalid", "compared"},
+		MustReach: []string{"C02.compatible-definition-accepted", "C02.compatible-record-decodes", "C02.value.scalar", "C02.value.time", "C02.value.localtime", "C02.value.lat", "C02.value.lng", "C02.value.string", "C02.value.string-array", "C02.value.array-element", "C02.absent-fields-invalid", "compared", "C02.multi.definition-accepted", "C02.multi.record-decodes", "C02.multi.absent-fields-invalid", "C02.multi.consumed", "compared-multi"},
 		Bounds: map[string]interface{}{
-			"quick":    "single-field definitions: every profile message x every listed field x every compatible (base type, size) pair x both byte orders x all data bytes, compared with a reference decoder; string sizes restricted to {0..8,16,127,128,254,255}; string arrays: sizes 0..6 fully symbolic, larger sizes with one terminator at any position",
-			"thorough": "as quick with every string size 0..255 and two terminators in long string arrays",
+			"quick":    "single-field definitions: every profile message x every listed field x every compatible (base type, size) pair x both byte orders x all data bytes, compared with a reference decoder; string sizes restricted to {0..8,16,127,128,254,255}; string arrays: sizes 0..6 fully symbolic, larger sizes with one terminator at any position; two-field definitions (H02b): a disturber (time/coordinate field at any compatible width, unlisted field of 1-4 bytes, developer field of 1-4 bytes, string of 1-3 bytes, array of 1-2 elements) before or after any known scalar field among the message's first 3 struct fields at its profile type, both byte orders, all data bytes",
+			"thorough": "as quick with every string size 0..255, two terminators in long string arrays, and every scalar field as neighbour in H02b",
 		},
-		Outside: []string{"definitions with several fields, unknown/developer fields between known ones (H02b, planned) and whole files",
+		Outside: []string{"definitions with more than two fields (plus one developer field) and whole files",
 			"definitions the validator accepts that are not 'compatible' in the property's sense (e.g. uint8 with size 2 into a uint16 slot) have no single denoted value; C01 covers their safety",
 			"local timestamps are compared with no reference time set (the reference cases are C12's)"},
 		Assumptions: append([]string{"compatibility guard vCompat (harness/fit/c02.go): canonical base-type byte; strings into string fields at any size; arrays with the profile's own base type and a positive multiple of its size; scalars with size == base size <= profile size and equal type or integer types of equal signedness", "M-reflect"}, commonAssumptions...),
@@ -388,16 +415,30 @@ func encJobs(tier string, meta map[string]int) []Job {
 	}
 	slot(3, 49)  // file_creator
 	slot(3, 162) // timestamp_correlation
+	// several messages in two slice slots of one container
+	for ti := 0; ti < 17; ti++ {
+		n := meta[fmt.Sprintf("nhost_%d", ti)]
+		for sa := 0; sa < n; sa++ {
+			for sb := sa + 1; sb < n; sb++ {
+				if meta[fmt.Sprintf("hostslice_%d_%d", ti, sa)] != 1 || meta[fmt.Sprintf("hostslice_%d_%d", ti, sb)] != 1 {
+					continue
+				}
+				for v := 0; v < 2; v++ {
+					js = append(js, job("fit", "H05m", "ti", ti, "sa", sa, "sb", sb, "fi", 1+v, "fj", 2-v, "fk", 1+2*v, "big", (sa+sb+v)%2, "crc", (sa+v)%2, "symoff", symoff))
+				}
+			}
+		}
+	}
 	return js
 }
 
 func init() {
-	encBounds := "one message (or two, for the union-definition case) per File; per instance one struct field or one adjacent pair set to arbitrary non-invalid values (integers over their full width, valid coordinates, whole-second times in [epoch+1, epoch+2^32-2], local times in 13 representative zone offsets (thorough: any offset within +-14 h), ASCII strings of up to two characters that fit, arrays of 1-2 elements), or every field set at once to fixed values (structure of the full definition); instances: 17 file types x every hosted message (table read from the tree) x every field x both byte orders x headers with and without CRC"
+	encBounds := "one message (or two, for the union-definition case) per File, plus Files with three messages in one slice slot (two setting one field, the last another) and one message in a second slice slot, for every pair of slice slots of every container; per instance one struct field or one adjacent pair set to arbitrary non-invalid values (integers over their full width, valid coordinates, whole-second times in [epoch+1, epoch+2^32-2], local times in 13 representative zone offsets (thorough: any offset within +-14 h), ASCII strings of up to two characters that fit, arrays of 1-2 elements), or every field set at once to fixed values (structure of the full definition); instances: 17 file types x every hosted message (table read from the tree) x every field x both byte orders x headers with and without CRC"
 	reg(&CheckDef{
 		ID:        "C05",
 		Meta:      "fit.Hmeta",
 		Jobs:      encJobs,
-		MustReach: []string{"C05.header.data-size", "C05.header.crc", "C05.file.crc", "C05.def.size-multiple", "C05.data.defined-before", "C05.stream.exact", "C05.wire.value", "C05.wire.string", "C05.file.header-crc-updated", "C05.file.crc-updated", "C05.records.count", "encoded", "C04.encode-output-passes-checkintegrity"},
+		MustReach: []string{"C05.header.data-size", "C05.header.crc", "C05.file.crc", "C05.def.size-multiple", "C05.data.defined-before", "C05.stream.exact", "C05.wire.value", "C05.wire.string", "C05.file.header-crc-updated", "C05.file.crc-updated", "C05.records.count", "encoded", "C04.encode-output-passes-checkintegrity", "C05.multi.record-counts", "C05.wire.unset-field-invalid", "encoded-multi"},
 		Bounds:    map[string]interface{}{"quick": encBounds, "thorough": encBounds},
 		Outside: []string{"Files with more than two messages or with several populated container slots at once", "strings longer than two characters and non-ASCII strings; arrays longer than two elements",
 			"the independent parser compares CRCs with dyncrc16.Checksum, which C14 shows to be CRC-16/ARC"},
@@ -559,7 +600,7 @@ func init() {
 func kindSeqs(n int) []int {
 	total := 1
 	for i := 0; i < n; i++ {
-		total *= 7 // vNumKinds in harness/fit/stream.go
+		total *= 10 // vNumKinds in harness/fit/stream.go
 	}
 	var r []int
 	for c := 0; c < total; c++ {
@@ -569,7 +610,7 @@ func kindSeqs(n int) []int {
 }
 
 func init() {
-	streamModel := "streams of the harness's FIT stream model: an activity file (12- or 14-byte header) with a file_id record, five definitions (record little-endian, unknown message with arbitrary unknown number, record big-endian with an arbitrary unlisted field, record with a developer field, lap) and n data records of any of 7 kinds (record, unknown message, record with unlisted field, developer-field record, compressed-timestamp record, lap, activity with timestamp and local timestamp) in every order, all field bytes arbitrary"
+	streamModel := "streams of the harness's FIT stream model: an activity file (12- or 14-byte header) with a file_id record, seven definitions (record little-endian, unknown message with arbitrary unknown number, record big-endian with an arbitrary unlisted field, record with two developer fields, lap, activity, record with one developer field defined last) and n data records of any of 10 kinds (record, unknown message, record with unlisted field, two-developer-field record, compressed-timestamp record, lap, activity with timestamp and local timestamp, compressed-timestamp header on the unknown message, compressed-timestamp header on a second file_id record, one-developer-field record) in every order, all field bytes arbitrary"
 	reg(&CheckDef{
 		ID: "C10",
 		Jobs: func(tier string, meta map[string]int) []Job {
@@ -605,8 +646,12 @@ func init() {
 			for _, k := range kindSeqs(n) {
 				for _, chunk := range []int{0, 1, 3} {
 					for fault := 0; fault <= 1; fault++ {
-						if tier != "thorough" && (k+chunk+fault)%2 == 1 {
-							continue // quick: every sequence, half of the (chunk, fault) grid, alternating
+						if tier != "thorough" && (chunk*2+fault)%6 != k%6 && !(chunk == 3 && (3*2+fault)%6 == k%6) {
+							// quick: every sequence with one (chunk, fault) combination, rotating
+							ci := map[int]int{0: 0, 1: 1, 3: 2}[chunk]
+							if (ci*2+fault) != k%6 {
+								continue
+							}
 						}
 						js = append(js, job("fit", "H11a", "n", n, "kinds", k, "crc", (k+chunk)%2, "chunk", chunk, "fault", fault))
 					}
@@ -621,7 +666,7 @@ func init() {
 		},
 		MustReach: []string{"C11.decode.error-on-cut", "C11.decode.partial-content-is-the-completed-prefix", "C11.checkintegrity.error-on-cut", "C11.decodeheader.error-on-cut", "C11.headerandfileid.error-on-cut", "C11.chained.error-on-cut-in-first-file", "C11.chain.clean-end-on-boundary", "C11.chain.clean-end-after-second-file", "C11.chain.cut-inside-second-file-is-error", "C11.chain.fault-is-error", "C11.chain.stray-byte-is-error"},
 		Bounds: map[string]interface{}{
-			"quick":    streamModel + "; n = 2; every cut offset and every fault offset inside the frame (case-split by the solver), chunk sizes 1, 3 and unlimited; chain boundary: file followed by every prefix of a second file, by a fault at every offset of it, or by one arbitrary stray byte",
+			"quick":    streamModel + "; n = 2; every cut offset or every fault offset inside the frame (case-split by the solver) with chunk size 1, 3 or unlimited (one combination per sequence, rotating); chain boundary: file followed by every prefix of a second file, by a fault at every offset of it, or by one arbitrary stray byte",
 			"thorough": "as quick with n = 3 and the full (chunk, fault) grid",
 		},
 		Outside:     []string{"streams outside the model; readers that violate the io.Reader contract; faults that are not persistent"},
@@ -637,7 +682,9 @@ func init() {
 			}
 			for _, k := range kindSeqs(nc) {
 				js = append(js, job("fit", "H16a", "n", nc, "kinds", k, "crc", k%2, "chunk", []int{0, 1, 3}[k%3], "cut", 0))
-				js = append(js, job("fit", "H16a", "n", nc, "kinds", k, "crc", (k+1)%2, "chunk", []int{0, 1, 3}[(k+1)%3], "cut", 1))
+				if tier == "thorough" || k%3 == 0 {
+					js = append(js, job("fit", "H16a", "n", nc, "kinds", k, "crc", (k+1)%2, "chunk", []int{0, 1, 3}[(k+1)%3], "cut", 1))
+				}
 			}
 			js = append(js, job("fit", "H16b", "n", 1), job("fit", "H16b", "n", 2))
 			if tier == "thorough" {
@@ -647,7 +694,7 @@ func init() {
 		},
 		MustReach: []string{"C16.options.same-error", "C16.options.same-bytes-consumed", "C16.options.same-messages", "C16.fields.exact", "C16.messages.exact", "C16.fields.absent-without-option", "C16.fields.sorted", "C16.messages.sorted", "C16.fields.counts-preserved"},
 		Bounds: map[string]interface{}{
-			"quick":    streamModel + "; n = 2, uncut and cut at every offset after the file_id record; all 8 option combinations (symbolic); sortedness of the exported lists: up to 2 arbitrary keys in every map iteration order",
+			"quick":    streamModel + "; n = 2, uncut (every sequence) and cut at every offset after the file_id record (every third sequence); all 8 option combinations (symbolic); sortedness of the exported lists: up to 2 arbitrary keys in every map iteration order",
 			"thorough": "as quick with n = 3 and 3 keys",
 		},
 		Outside:     []string{"streams outside the model; more than one distinct unknown message number / unlisted field number per stream (the model has one of each, with arbitrary values)"},
